@@ -761,6 +761,9 @@ type Treasure interface {
 	IsContentChanged() bool
 
 	IsContentTypeChanged() bool
+	// ResetChangeFlags clears every Is...Changed flag. The swamp calls it when a Save has
+	// consumed the flags, so that they always mean "changed since the last Save".
+	ResetChangeFlags(guardID guard.ID)
 	IsExpirationTimeChanged() bool
 	IsCreatedAtChanged() bool
 	IsCreatedByChanged() bool
@@ -2324,6 +2327,21 @@ func (t *treasure) IsModifiedByChanged() bool {
 	t.mu.RLock()
 	defer t.mu.RUnlock()
 	return t.modifiedByChanged
+}
+
+func (t *treasure) ResetChangeFlags(guardID guard.ID) {
+	_ = t.Guard.CanExecute(guardID)
+	t.mu.Lock()
+	defer t.mu.Unlock()
+	t.contentChanged = false
+	t.contentTypeChanged = false
+	t.expirationTimeChanged = false
+	t.createdAtChanged = false
+	t.createdByChanged = false
+	t.deletedAtChanged = false
+	t.deletedByChanged = false
+	t.modifiedAtChanged = false
+	t.modifiedByChanged = false
 }
 
 func (t *treasure) IsContentTypeChanged() bool {
